@@ -175,6 +175,9 @@ def rule_g2(ctx):
         ctx.ok("G2-inside", c, "P2 prefix of P1", site(f), "node 1 lies in the subtree of node 2")
     elif r in prefix_forms("P2", "P1"):
         ctx.viol("G2-inside", c, "P2 prefix of P1", site(f), f"inside(node_1, node_2) means node_1 is in the subtree of node_2 (path_2 is a prefix of path_1); body tests the converse: {r}")
+    elif r is not None and _re.fullmatch(r"all\(\((\w+) == (\w+) for \1, \2 in zip\((P1, P2|P2, P1)\)\)\)", r):
+        ctx.viol("G2-inside", c, "P2 prefix of P1", site(f),
+                 f"inside is decided by `{r}`: zip() stops at the shorter path, so the test only says that one path is a prefix of the OTHER - inside(ancestor, descendant) becomes true as well")
     else:
         raise Unrecognised("C04.G2", c, f"inside body not recognised: {r}")
     # direct_child
@@ -191,6 +194,9 @@ def rule_g2(ctx):
         ctx.ok("G2-direct-child", c, "len(P1) == len(P2)+1 and P2 prefix of P1", site(f), "direct child relation")
     elif "len(P2) != len(P1) + 1" in txt or any(p in txt for p in prefix_forms("P2", "P1")) or "len(P1) != len(P2)" in txt and "+ 1" not in txt:
         ctx.viol("G2-direct-child", c, "len(P1) == len(P2)+1 and P2 prefix of P1", site(f), f"direct_child(node_1, node_2): node_1 is a child of node_2; body is: {txt}")
+    elif len(b) == 1 and isinstance(b[0], ast.Return) and src(b[0].value) in ("P1[:-1] == P2", "P2 == P1[:-1]"):
+        ctx.viol("G2-direct-child", c, "len(P1) == len(P2)+1 and P2 prefix of P1", site(f),
+                 f"direct_child is decided by `{src(b[0].value)}` alone: for the root path () the slice ()[:-1] is () again, so direct_child(root, root) holds - the length test len(P1) == len(P2) + 1 is missing")
     else:
         raise Unrecognised("C04.G2", c, f"direct_child body not recognised: {txt}")
     # before
